@@ -13,7 +13,7 @@ import capacity as cap
 
 def fdesc(f):
     return "%s%s/bl%d/%s%s%s%s" % (f["key"], "" if f["ordOK"] else "(wrong ordinal)", f["bl"], f["hdr"], "/legacy" if f["legacy"] else "",
-                                  "/plotted" if f["plotted"] else "", "" if f["hasA"] else "/noA") + "@" + f["d"]
+                                  {"plotted": "/plotted", "preplotted": "/A-complete"}.get(f.get("prog"), ""), "" if f["hasA"] else "/noA") + "@" + f["d"]
 
 
 def stops_erase_nothing(v, d, seed, tier):
